@@ -27,12 +27,14 @@ import transaction  # noqa: E402
 import ZODB  # noqa: E402
 import ZODB.broken  # noqa: E402
 import ZODB.Connection  # noqa: E402
+import ZODB.utils  # noqa: E402
 import zodbpickle.pickle  # noqa: E402
 from persistent import Persistent  # noqa: E402
 from persistent.list import PersistentList  # noqa: E402
 from persistent.mapping import PersistentMapping  # noqa: E402
 from persistent.wref import WeakRef  # noqa: E402
 from ZODB.Connection import TransactionMetaData  # noqa: E402
+from ZODB.FileStorage import FileStorage  # noqa: E402
 from ZODB.MappingStorage import MappingStorage  # noqa: E402
 from ZODB.POSException import InvalidObjectReference, POSKeyError  # noqa: E402
 from ZODB.serialize import get_refs, referencesf  # noqa: E402
@@ -41,6 +43,7 @@ import c14_classes  # noqa: E402
 from c14_classes import Gone, GoneNA, Node, NodeNA  # noqa: E402
 
 Z64 = b'\0' * 8
+TMPBASE = [None]                          # scratch directory of the run (ck.tmp)
 DBNAMES = ['d0', 'd1', 'dx']            # d0, d1: members of the multi-database; dx: a stranger
 KINDS = {'N': Node, 'A': NodeNA, 'M': PersistentMapping, 'L': PersistentList, 'G': Gone, 'H': GoneNA}
 CLSID = {('persistent.mapping', 'PersistentMapping'): 1, ('persistent.list', 'PersistentList'): 2,
@@ -296,6 +299,7 @@ class Session:
         self.events = []
         self.counts = {}
         c14_classes.show_gone()
+        self.dir = None
         ndb = case.get('ndb', 1)
         self.ndb = ndb
         plans = case.get('oids', [[], [], []])
@@ -303,7 +307,12 @@ class Session:
         self.dbs = []
         databases = {}
         for i in range(ndb):
-            st = MappingStorage(DBNAMES[i])
+            if case.get('storage') == 'file':
+                import tempfile
+                self.dir = self.dir or tempfile.mkdtemp(prefix='c14-', dir=TMPBASE[0])
+                st = FileStorage(os.path.join(self.dir, DBNAMES[i] + '.fs'))
+            else:
+                st = MappingStorage(DBNAMES[i])
             self._stub(st, i, plans[i] if i < len(plans) else [])
             self.storages.append(st)
             self.dbs.append(ZODB.DB(st, databases=databases, database_name=DBNAMES[i],
@@ -341,7 +350,7 @@ class Session:
             used = set(self.issued[i]) | {Z64}
             while plan:
                 o = plan.pop(0)
-                if o not in used and not st._data.get(o):
+                if o not in used and not self._exists(st, o):
                     break
             else:
                 while True:
@@ -361,6 +370,14 @@ class Session:
 
         st.new_oid = new_oid
         st.store = store
+
+    @staticmethod
+    def _exists(st, oid):
+        try:
+            ZODB.utils.load_current(st, oid)
+            return True
+        except POSKeyError:
+            return False
 
     @staticmethod
     def _all_records(st):
@@ -422,6 +439,9 @@ class Session:
             except Exception:
                 pass
         c14_classes.show_gone()
+        if self.dir:
+            import shutil
+            shutil.rmtree(self.dir, ignore_errors=True)
 
     # -- program ops ------------------------------------------------------------------------
     def build(self, spec, shared):
@@ -679,8 +699,9 @@ class Session:
         if txn_ok:
             for i, st in enumerate(self.storages):
                 if st.lastTransaction() != before[i]:
-                    last = list(st.iterator())[-1]
-                    it = sorted(r.oid for r in last)
+                    it = []
+                    for t in st.iterator():
+                        it = sorted(r.oid for r in t)       # of the last transaction
                     lg = sorted(o for o, _ in self.store_log[i])
                     if it != lg:
                         self.violation('C14:stored-set', 'storage.iterator() of the transaction lists %r, '
@@ -819,6 +840,14 @@ class Session:
         databases = {}
         dbs = []
         for i, st in enumerate(self.storages):
+            if self.dir and not patched:
+                import shutil
+                self.ncopy = getattr(self, 'ncopy', 0) + 1
+                path = os.path.join(self.dir, '%s-copy%d.fs' % (DBNAMES[i], self.ncopy))
+                shutil.copyfile(st.getName(), path)          # the same storage, opened afresh
+                dbs.append(ZODB.DB(FileStorage(path, read_only=True), databases=databases,
+                                   database_name=DBNAMES[i]))
+                continue
             new = MappingStorage(DBNAMES[i])
             cur = self._all_records(st)
             last = {}
@@ -919,6 +948,8 @@ class Session:
                     for t in tree_leaves((a or []) + s):
                         if ('u' in t[:3]):
                             self.formats.add('u')
+                        if t[0] == 'L':
+                            self.formats.add('L')
                 dbs = self.fresh_dbs(patched)
                 try:
                     c = dbs[0].open(transaction_manager=transaction.TransactionManager())
@@ -1197,7 +1228,8 @@ def gen_case(rng, thorough=False):
     ndb = 2 if rng.random() < (0.45 if thorough else 0.35) else 1
     case = dict(ndb=ndb, xrefs=[1 if rng.random() < 0.93 else 0, 1],
                 oids=[gen_oids(rng, 12), gen_oids(rng, 8), []], ops=[],
-                legacy=rng.random() < 0.5, legacy_weak=rng.random() < 0.5, fresh_each=rng.random() < 0.5)
+                legacy=rng.random() < 0.5, legacy_weak=rng.random() < 0.5, fresh_each=rng.random() < 0.5,
+                storage='file' if rng.random() < 0.12 else 'mapping')
     ops = case['ops']
     weak_p = rng.choice([0.0, 0.1, 0.1, 0.25])
     counter = [0]
@@ -1344,8 +1376,10 @@ def light(case, s, mo):
     return res
 
 
-def work(cases):
+def work(arg):
     """run a chunk of cases on the real code and on the model (one driver process per chunk)"""
+    tmp, cases = arg
+    TMPBASE[0] = tmp
     sessions = [run_case(case) for case in cases]
     alllines = [l for s in sessions for l, _ in s.lines]
     model = run_driver('Refs', alllines) if alllines else []
@@ -1378,9 +1412,10 @@ def main(argv=None):
         import multiprocessing
         chunks = [cases[i:i + 500] for i in range(0, len(cases), 500)]
         with multiprocessing.Pool(min(16, os.cpu_count() or 4)) as pool:
-            results = [r for chunk in pool.map(work, chunks) for r in chunk]
+            results = [r for chunk in pool.map(work, [(ck.tmp, c) for c in chunks]) for r in chunk]
     else:
-        results = work(cases)
+        results = work((ck.tmp, cases))
+    TMPBASE[0] = ck.tmp
     shrunk = set()
     for case, res in zip(cases, results):
         for k, v in res['counts'].items():
